@@ -16,6 +16,7 @@ import VyxalModel.Model.Input
 import VyxalModel.Model.Num
 import VyxalModel.Model.NumTheory
 import VyxalModel.Model.Lists
+import VyxalModel.Model.PopHelper
 import VyxalModel.Model.Cartesian
 import VyxalModel.Model.Vectorise
 import VyxalModel.Model.Streams
@@ -163,6 +164,15 @@ def ntCmd (arg : String) : String :=
 
 def showInts (l : List Int) : String := "[" ++ ",".intercalate (l.map toString) ++ "]"
 def showIntss (l : List (List Int)) : String := "[" ++ ",".intercalate (l.map showInts) ++ "]"
+
+/-- C09: `pophelper <k>|<stack, top last>|<retain T/F><reverse T/F>` — inputs are 100, 101, … -/
+def popHelperCmd (arg : String) : String :=
+  match arg.splitOn "|" with
+  | [k, st, fl] =>
+    let r := PopH.pop (fun i => (100 + i : Int)) (fl.startsWith "T") (fl.endsWith "T") k.toNat! (parseInts st)
+    s!"{showInts r.popped} {showInts r.stack} {r.reads}"
+  | _ => "BADARG"
+
 
 /-- `ls <fn>|<list>|<second argument>` : the list builtin models -/
 def lsCmd (arg : String) : String :=
@@ -367,6 +377,7 @@ def answer (cmd arg : String) : String :=
   | "pybody" => showOptCps (pyStringBody (parseCps arg))
   | "placed" => placedCmd (parseCps arg)
   | "atok" => atokCmd (parseCps arg)
+  | "pophelper" => popHelperCmd arg
   | "dictfacts" => s!"{Gen.dictionaryContents.length} {Gen.compression.length} {dictMaxLen}"
   | "dictcomp" => showOptCps (some (optimalCompress Gen.compression Gen.dictionaryContents dictMaxLen (parseCps arg)))
   | "transpile" => transpileCmd false (parseCps arg)
